@@ -6,8 +6,8 @@ from harness import core
 from harness.checks import bodylib as bl
 
 CLAUSES = {
-    'C04': {'ClExact', 'ClNoOverRead', 'Outcome', 'ClOutcome', 'Spooling'},
-    'C05': {'LegalAccepted', 'TruncRejected', 'RefExact', 'Outcome'},
+    'C04': {'ClExact', 'ClNoOverRead', 'Outcome', 'ClOutcome', 'Spooling', 'Presentations'},
+    'C05': {'LegalAccepted', 'TruncRejected', 'RefExact', 'Outcome', 'Presentations'},
     'C13': {'LimitVerdict', 'ReadBound', 'Spooling', 'Outcome'},
 }
 MC = {
@@ -35,11 +35,11 @@ def gen_cl_small(rng, n, limits=False):
         style = rng.choice(['full', 'short', 'short', 'byte'])
         data = rand_bytes(rng, d)
         if style == 'full':
-            t = bl.run_real('cl', data, cl, buf, mb)
+            t = bl.run_real('cl', data, cl, buf, mb, ctype=rng.choice(bl.CTYPES))
         elif style == 'byte':
-            t = bl.run_real('cl', data, cl, buf, mb, schedule=[1] * (d + 2))
+            t = bl.run_real('cl', data, cl, buf, mb, schedule=[1] * (d + 2), ctype=rng.choice(bl.CTYPES))
         else:
-            t = bl.run_real('cl', data, cl, buf, mb, rng=rng, short_p=rng.choice([0.2, 0.6, 1.0]))
+            t = bl.run_real('cl', data, cl, buf, mb, rng=rng, short_p=rng.choice([0.2, 0.6, 1.0]), ctype=rng.choice(bl.CTYPES))
         out.append(t)
     return out
 
@@ -55,7 +55,7 @@ def gen_cl_large(rng, n, limits=False):
         if limits:
             mb = rng.choice([d - 1, d, d + 1, d // 2, 100 * 1024, 1024 * 1024])
         data = rand_bytes(rng, d)
-        t = bl.run_real('cl', data, cl, buf, mb, rng=rng if rng.random() < 0.7 else None, short_p=0.3)
+        t = bl.run_real('cl', data, cl, buf, mb, rng=rng if rng.random() < 0.7 else None, short_p=0.3, ctype=rng.choice(bl.CTYPES))
         out.append(t)
     return out
 
@@ -105,11 +105,11 @@ def gen_chunked(rng, n, limits=False, big=False):
         sched = rng.choice(['full', 'short', 'short', 'byte'])
         cl = rng.choice([-1, -1, 0, 1, plen, plen // 2, len(inp)])
         if sched == 'full':
-            t = bl.run_real('chunked', inp, cl, buf, mb, kind=kind, expect=expect)
+            t = bl.run_real('chunked', inp, cl, buf, mb, kind=kind, expect=expect, ctype=rng.choice(bl.CTYPES))
         elif sched == 'byte':
-            t = bl.run_real('chunked', inp, cl, buf, mb, schedule=[1] * (len(inp) + 2), kind=kind, expect=expect)
+            t = bl.run_real('chunked', inp, cl, buf, mb, schedule=[1] * (len(inp) + 2), kind=kind, expect=expect, ctype=rng.choice(bl.CTYPES))
         else:
-            t = bl.run_real('chunked', inp, cl, buf, mb, rng=rng, short_p=rng.choice([0.3, 1.0]), kind=kind, expect=expect)
+            t = bl.run_real('chunked', inp, cl, buf, mb, rng=rng, short_p=rng.choice([0.3, 1.0]), kind=kind, expect=expect, ctype=rng.choice(bl.CTYPES))
         out.append(t)
     return out
 
@@ -222,7 +222,7 @@ def replay(path, prop):
         print('replay: input too large to be stored; re-run the check with the same VERIF_SEED')
         return 2
     t = bl.run_real(case['mode'], inp, case['cl'], case['buf'], case['maxBody'], schedule=case['reads'],
-                    kind=case['kind'], expect=bytes.fromhex(case['expect_hex'] or ''))
+                    kind=case['kind'], expect=bytes.fromhex(case['expect_hex'] or ''), ctype=case.get('ctype') or None)
     print(json.dumps({'outcome': t['phase'], 'reads': t['ev'][:40], 'body_len': len(t['out']),
                       'body_equals_prefix': t['out'] == inp[:max(case['cl'], 0)] if case['mode'] == 'cl' else None,
                       'body_equals_payload': t['out'] == t['expect'] if case['mode'] == 'chunked' else None}))
